@@ -1971,7 +1971,7 @@ fn eval_let(
             Ok(ty) => ty,
             Err(e) => {
                 return Err((
-                    RestoreValues(vec![]),
+                    RestoreValues(vec![expr_value]),
                     EvalError::Exception(ExceptionInfo {
                         position: hint.position.clone(),
                         message: ErrorMessage(vec![msgtext!("Unbound type in hint: "), Code(e)]),
@@ -4828,7 +4828,7 @@ fn check_param_types(
                 Ok(ty) => ty,
                 Err(e) => {
                     return Err((
-                        RestoreValues(vec![]),
+                        RestoreValues(saved_call_values(receiver_value, arg_values)),
                         EvalError::Exception(ExceptionInfo {
                             position: arg_positions[i].clone(),
                             message: ErrorMessage(vec![
